@@ -286,7 +286,13 @@ fn fault_name(f: Fault) -> &'static str {
 pub fn run_corpus_file(rep: &mut Report, c: &Corpus, thorough: bool) {
     rep.case_begin(&format!("{} ({} bytes)", c.label, c.bytes.len()));
     // sanity: the unaltered file decodes completely
-    let d0 = decode_all(std::io::Cursor::new(&c.bytes[..]), Rd::SampleRead, 4096);
+    let d0 = match mon::guard(|| decode_all(std::io::Cursor::new(&c.bytes[..]), Rd::SampleRead, 4096)) {
+        Ok(d) => d,
+        Err(p) => {
+            rep.violation("panic", p.signature(), format!("{}: {} at {}", c.label, p.msg, p.location), J::obj().set("flac", J::hex(&c.bytes)));
+            return;
+        }
+    };
     if d0.error.is_some() || d0.samples != c.pcm {
         rep.violation("decode-error", "corpus-file-does-not-decode", format!("{}: {:?}", c.label, d0.error), J::obj().set("flac", J::hex(&c.bytes)));
         return;
@@ -503,7 +509,13 @@ pub fn streaminfo_reject_cases(rep: &mut Report, rng: &mut Rng, count: usize) {
         // these three are invalid by construction (the lenient validator does not look at max_block / short blocks)
         let mut all_err = true;
         for kind in KINDS {
-            let dd = decode_all(std::io::Cursor::new(&b[..]), kind, 4096);
+            let dd = match mon::guard(|| decode_all(std::io::Cursor::new(&b[..]), kind, 4096)) {
+                Ok(d) => d,
+                Err(p) => {
+                    rep.violation("panic", p.signature(), format!("{name}: {kind:?}: {} at {}", p.msg, p.location), J::obj().set("class", name).set("altered", J::hex(&b)));
+                    continue;
+                }
+            };
             let n = dd.samples.len();
             let is_prefix = n <= corpus.pcm.len() && dd.samples[..] == corpus.pcm[..n];
             let on_boundary = corpus.boundaries.binary_search(&n).is_ok();
